@@ -28,7 +28,7 @@ def runner_tasks(tier):
     return [{"module": "c03", "task": "sample", "kind": "bounded", "clause": "all outputs vs documented equations, in floats"},
             {"module": "c07", "task": "energy_tables", "kind": "eval", "clause": "energy-dependent tables: nodes, clamping, interpolation axis"},
             {"module": "c09", "task": "steps", "name": "first-touch steps", "kind": "eval", "arg": {"groups": ["neutron"]}, "clause": "every first touch of the neutron data (element, isotope, ion, calculators) serves the canonical data", "timeout": 1500},
-            {"module": "stateful", "task": "C03", "name": "stateful C03", "kind": "bounded", "clause": "wavelength / energy in every numeric type and array layout: shape, entry-wise equality with the scalar call, argument untouched"}]
+            {"module": "stateful", "task": "C03", "name": "stateful C03", "kind": "bounded", "clause": "wavelength / energy in every numeric type and array layout: shape, entry-wise equality with the scalar call, argument untouched; compounds that print alike are computed from their own atoms"}]
 
 
 REPLAY = {'module': 'c03', 'task': 'replay'}
